@@ -32,10 +32,10 @@ F('cv_it__postinc', r'constexpr it_type operator \+\+\(int\)', 'struct cv_it cv_
 F('cv_it__preinc', r'constexpr it_type& operator \+\+\(\)', 'struct cv_it* cv_it__preinc(struct cv_it* self)')
 F('cv_it__gt', r'constexpr bool operator > \(const it_type& other\)', 'bool cv_it__gt(%s, const struct cv_it* other)' % S1)
 F('cv_it__lt', r'constexpr bool operator < \(const it_type& other\)', 'bool cv_it__lt(%s, const struct cv_it* other)' % S1)
-MEMB = Call(r'VX_INIT__(\w+)', 'self->{m1} = ({args})', name='R17:member initializer m(e)')
+MEMB = Call(r'VX_INIT__(\w+)', 'self->{m1} = ({args})', name='R19:member initializer m(e)')
 F('cv_it__ctor', r'constexpr iterator\(T\* ptr\)', 'void cv_it__ctor(struct cv_it* self, vx_T* ptr)', [MEMB], IT, ctor=True)
 F('cv_it__deref', r'constexpr T& operator \*\(\)', 'vx_T* cv_it__deref(%s)' % S1, [S(r'return \*ptr;', 'return self->ptr;', name='R5:reference result')], IT)
-MK = S(r'return iterator\(([^;]*)\);', r'{ struct cv_it vx_r; cv_it__ctor(&vx_r, \1); return vx_r; }', name='R17:iterator(p)')
+MK = S(r'return iterator\(([^;]*)\);', r'{ struct cv_it vx_r; cv_it__ctor(&vx_r, \1); return vx_r; }', name='R19:iterator(p)')
 MEMBERS = S(r'(?<![\w.>])(the_data|current_size)\b', r'self->\1', name='R4:members')
 F('cvec__begin', r'constexpr iterator begin\(\)', 'struct cv_it cvec__begin(struct cvec* self)', [MK, MEMBERS], CV, between_ok=r'\s*')
 F('cvec__end', r'constexpr iterator end\(\)', 'struct cv_it cvec__end(struct cvec* self)', [MK, MEMBERS], CV, between_ok=r'\s*')
